@@ -31,6 +31,8 @@ package NoKV
 //@   trusted
 //@   ghost defaultReads = (uint8(cf) == 0 ? defaultReads + 1 : defaultReads)
 //@   ghost lastDefaultReadTs = (uint8(cf) == 0 ? version : lastDefaultReadTs)
+//@   ghost lastDefaultReadOK = (uint8(cf) == 0 ? (result1 == nil && result != nil && result.Meta & 1 == 0) : lastDefaultReadOK)
+//@   ensures [entry-or-error] result1 == nil ==> result != nil
 //@   modifies nothing
 
 // C12: after recovery the oracle hands out timestamps strictly above everything
